@@ -3443,6 +3443,10 @@ int32_t parsePolicyQualifierInfo(psPool_t *pool,
             return PS_PARSE_FAIL;
         }
         qualInfo->cps = psMalloc(pool, len + 1);
+        if (qualInfo->cps == NULL)
+        {
+            return PS_MEM_FAIL;
+        }
         qualInfo->cpsLen = len;
         Memcpy(qualInfo->cps,
             p, len);
@@ -3887,7 +3891,7 @@ int32_t parsePolicyMappings(psPool_t *pool,
         p += len;
 
         pol_map->subjectDomainPolicy = psMalloc(pool, sizeof(psAsnOid_t));
-        if (pol_map->issuerDomainPolicy == NULL)
+        if (pol_map->subjectDomainPolicy == NULL)
         {
             psTraceCrypto("Memory allocation failure.\n");
             return PS_PARSE_FAIL;
@@ -4770,6 +4774,10 @@ KNOWN_EXT:
             policiesEnd = p + len;
             extensions->certificatePolicy.policy
                 = psMalloc(pool, sizeof(x509PolicyInformation_t));
+            if (extensions->certificatePolicy.policy == NULL)
+            {
+                return PS_MEM_FAIL;
+            }
             Memset(extensions->certificatePolicy.policy, 0,
                 sizeof(x509PolicyInformation_t));
             pPolicy = extensions->certificatePolicy.policy;
@@ -4789,6 +4797,10 @@ KNOWN_EXT:
             {
 
                 pPolicy->next = psMalloc(pool, sizeof(x509PolicyInformation_t));
+                if (pPolicy->next == NULL)
+                {
+                    return PS_MEM_FAIL;
+                }
                 Memset(pPolicy->next, 0, sizeof(x509PolicyInformation_t));
                 pPolicy = pPolicy->next;
                 if (parsePolicyInformation(pool, p, extEnd, fullExtLen,
@@ -4812,6 +4824,10 @@ KNOWN_EXT:
         case OID_ENUM(id_ce_policyMappings):
             extensions->policyMappings = psMalloc(pool,
                 sizeof(x509policyMappings_t));
+            if (extensions->policyMappings == NULL)
+            {
+                return PS_MEM_FAIL;
+            }
             Memset(extensions->policyMappings, 0, sizeof(x509policyMappings_t));
             if (parsePolicyMappings(pool, p,
                     extEnd,
